@@ -2,14 +2,18 @@
 """import the sub-agents' seeded changes from their scratch worktrees into /verif/seeded/<id>/"""
 import glob, json, os, re, shutil, subprocess, sys
 ROOT = os.path.dirname(os.path.dirname(os.path.abspath(__file__)))
-for wt in sorted(glob.glob('/tmp/wt_C*') + glob.glob('/tmp/wu_C*')):
-    prop = os.path.basename(wt)[3:]
+for wt in sorted(glob.glob('/tmp/wt_C*') + glob.glob('/tmp/wu_C*') + glob.glob('/tmp/wv_C*')):
+    prop = os.path.basename(wt)[3:6]
+    wave3 = os.path.basename(wt).startswith('wv_')
     for d in sorted(glob.glob(os.path.join(wt, '_seeded', '*'))):
         if not os.path.isdir(d):
             continue
         name = os.path.basename(d)
         sid = f"{prop}-{name}"
         out = os.path.join(ROOT, 'seeded', sid)
+        if wave3 and os.path.exists(out) and json.load(open(os.path.join(out, 'meta.json'))).get('wave') != 3:
+            sid += "-w3"  # an earlier wave produced a change of the same name
+            out = os.path.join(ROOT, 'seeded', sid)
         vlog = os.path.join(d, 'verify.log')
         if not os.path.exists(vlog):
             print(f"skip {sid}: not verified yet")
@@ -34,6 +38,7 @@ for wt in sorted(glob.glob('/tmp/wt_C*') + glob.glob('/tmp/wu_C*')):
         meta = json.load(open(meta_path)) if os.path.exists(meta_path) else {}
         meta.update({
             "id": sid,
+            "wave": 3 if wave3 else meta.get("wave", 1),
             "property": prop,
             "origin": "fresh sub-agent given only the property text and its own scratch git worktree of /repo (nothing from /verif)",
             "what_it_breaks_and_needs": readme[:3000],
